@@ -38,6 +38,8 @@ func init() {
 	engine.RegisterSignature("c06-literal-int64-leak", sigLiteralLeak)
 	engine.RegisterSignature("c06-literal-bighex-accumulation", sigLiteralHexAccum)
 	engine.RegisterSignature("c06-lexer-cr-peek", sigLexerCRPeek)
+	engine.RegisterSignature("c06-number-this-tonumber", sigThisToNumber)
+	engine.RegisterSignature("c06-literal-key-source-text", sigLiteralKeySource)
 }
 
 func auxFloat(m *engine.Mismatch, k string) (float64, bool) {
@@ -523,4 +525,48 @@ func sigLexerCRPeek(m *engine.Mismatch) bool {
 	}
 	r := []rune(s)
 	return len(r) == 3 && r[0] == '\r' && r[2] == '\n' && m.Observed == "T:u"
+}
+
+// sigThisToNumber: the receiver is a Number object with an own valueOf returning 7
+// and an own toString returning "9": toFixed / toExponential / toPrecision read
+// "this Number value" with ToNumber(this) (resp. ToString(this) for
+// toPrecision(undefined)) instead of the [[PrimitiveValue]]. Observed equals what
+// the same call gives on the receiver 7 (including the open Go-format deviations
+// of toExponential / toPrecision).
+func sigThisToNumber(m *engine.Mismatch) bool {
+	if m.Aux["recv"] != "2" {
+		return false
+	}
+	a, ok := auxFloat(m, "argnum")
+	if !ok {
+		return false
+	}
+	undef := m.Aux["undef"] == "true"
+	f := num.ToInteger(a)
+	switch m.Aux["op"] {
+	case "toFixed":
+		return m.Observed == num.ToFixed(7, a).String()
+	case "toExponential":
+		if !undef && (f < 0 || f > 20) {
+			return m.Observed == "E:RangeError"
+		}
+		return m.Observed == "s:"+strconv.FormatFloat(7, 'e', goPrec(a, undef), 64)
+	case "toPrecision":
+		if undef {
+			return m.Observed == "s:9"
+		}
+		if f < 1 || f > 21 {
+			return m.Observed == "E:RangeError"
+		}
+		return m.Observed == "s:"+strconv.FormatFloat(7, 'g', int(f), 64)
+	}
+	return false
+}
+
+// sigLiteralKeySource: a NumericLiteral used as a property name in an object
+// initialiser names the property by its source text instead of ToString of its
+// value.
+func sigLiteralKeySource(m *engine.Mismatch) bool {
+	s, ok := textOp(m, "literalkey")
+	return ok && m.Observed == "s:"+s
 }
